@@ -7,6 +7,7 @@ import UberjobModel.Props.C05
 #print axioms Uberjob.Cache.C05_stale_check_result
 #print axioms Uberjob.Cache.C05_end_to_end_only_stale
 #print axioms Uberjob.Cache.C05_end_to_end
+#print axioms Uberjob.Cache.C05_end_to_end_prod_only_stale
 #print axioms Uberjob.Cache.ancStep_nil
 #print axioms Uberjob.Cache.anc_nil
 #print axioms Uberjob.Cache.prunePlan_nothing
